@@ -29,6 +29,10 @@ def features(spec, fs, rd, rng):
     nsl = sl.shape[1]
     X[:, :nsl] = sl
     X[:, nsl:] = rng.uniform(0.05, 2.5, (nspin, fs.nfeat - nsl, n)) * rng.choice([-1.0, 1.0], (nspin, fs.nfeat - nsl, n))
+    if any(k.get("mul") == "NLDA_X_DAMP" or k.get("add") == "NLDA_X_DAMP" for k in spec["kernels"]) and fs.nfeat > 3:
+        # the damped baseline 2 / (1 + x_3 / 2)^2 is defined for the non-negative version-i feature it is named after and
+        # has a pole at x_3 = -2: a signed draw of -2.0000000x is outside its domain (thorough tier, seed 1: 1.8e17)
+        X[:, 3] = np.abs(X[:, 3])
     return X
 
 
@@ -152,7 +156,7 @@ def model_fd(case, ctx):
                "every other sample bit-identical; (cutoff law) for rhocut in {1e-10, 1e-9, 1e-6, a value between two sample "
                "densities}: samples whose total density (per-channel spin-scaled density for SEP) is below rhocut have "
                "machine-learned energy density exactly 0 and derivative exactly 0 (models evaluated without additive baseline "
-               "part by comparing with the additive baseline alone), samples above it are bit-identical to the rhocut=0 result; "
+               "part by comparing with the additive baseline alone), samples above it equal the rhocut=0 result to 1e-13 of the batch maximum; "
                "non-trivial = at least one sample on each side of the cutoff")
 def locality_cutoff(case, ctx):
     spec = case["model"]
@@ -202,8 +206,12 @@ def locality_cutoff(case, ctx):
     ctx.event("cutoff_two_sided" if (all_below.any() and above.any()) else "cutoff_one_sided")
     if all_below.any() and above.any():
         ctx.nontrivial([G.model_signature(spec), nspin, case["rhocut"]])
-    ctx.equal_bits(f2[above], f0[above], ("cutoff", "above_changed", "res", tag, modes))
-    ctx.equal_bits(d2[..., above], d0[..., above], ("cutoff", "above_changed", "dres", tag, modes))
+    # not bit-equality: an implementation may evaluate only the samples above the cutoff, and BLAS-backed evaluators
+    # re-associate with the batch shape and alignment (1e-28 absolute seen) -- the cutoff must not *change* them
+    ctx.close(f2[above], f0[above], ("cutoff", "above_changed", "res", tag, modes), rtol=1e-13,
+              scale=float(np.max(np.abs(f0))) + 1e-300)
+    ctx.close(d2[..., above], d0[..., above], ("cutoff", "above_changed", "dres", tag, modes), rtol=1e-13,
+              scale=float(np.max(np.abs(d0))) + 1e-300)
     if not xc2:
         # MappedDFTKernel: the whole kernel contribution (incl. its additive baseline) is cut
         ctx.check(np.all(f2[all_below] == 0.0), ("cutoff", "below_nonzero", "res", tag, modes), rhocut=rc)
